@@ -111,6 +111,10 @@ class Builder:
             out.append(self.node(scope, depth, comp_index, where))
         if not out and min_nodes:
             out.append({"t": "text", "s": self.fresh("t")})
+        if out and self.cfg.get("wstext", True) and self.chance(22):
+            # whitespace-only text pieces between (and around) the nodes: they are part of the page like any other text
+            for _ in range(self.integer(1, 2)):
+                out.insert(self.integer(0, len(out)), {"t": "text", "s": self.pick([" ", " ", "\n", "  "])})
         return out
 
     def node(self, scope, depth, comp_index, where):
